@@ -953,6 +953,7 @@ fn main() {
     let mut emitted: Vec<String> = vec![];
     let mut str_consts: Vec<(String, String)> = vec![];
     let mut int_const_names: Vec<String> = vec![];
+    let mut arr_const_names: Vec<String> = vec![];
     let mut pending: Vec<String> = order.clone();
     let mut progress = true;
     while progress && !pending.is_empty() {
@@ -1008,6 +1009,7 @@ fn main() {
                             continue;
                         }
                         writeln!(o, "Definition {} (f : feats) : list Z := [{}].", Tr::const_ident(&name).replacen("k_", "ka_", 1), zs.join("; ")).unwrap();
+                        arr_const_names.push(name.clone());
                         emitted.push(name.clone());
                         progress = true;
                         continue;
@@ -1035,6 +1037,12 @@ fn main() {
         o,
         "\nDefinition int_consts (f : feats) : list (string * Z) := [\n  {}].\n",
         int_const_names.iter().map(|n| format!("({}, {} f)", cs(n), Tr::const_ident(n))).collect::<Vec<_>>().join(";\n  ")
+    )
+    .unwrap();
+    writeln!(
+        o,
+        "Definition arr_consts (f : feats) : list (string * list Z) := [\n  {}].\n",
+        arr_const_names.iter().map(|n| format!("({}, {} f)", cs(n), Tr::const_ident(n).replacen("k_", "ka_", 1))).collect::<Vec<_>>().join(";\n  ")
     )
     .unwrap();
     writeln!(
